@@ -15,9 +15,13 @@ Check side  (a) regenerate the skeleton, build, audit;
                 (`Shape.wdepth`); the Lean measure `depth.expr` of every 'gen' export is compared with an
                 independent Python measure, with the call-tree measure, and with the bound;
                 the erasure search is compared with the model (`depth.erasure`, `depth.walk`);
-            (d) specification side, judged directly on the real code: nesting <= 2*max_depth + 8 (the bound
-                the property file states for the current source), feasibility tests of one function
-                <= n0 + min(2^n - 1, max_combinations + 1), `itertools` walk = 2^n - 1 non-empty subsets;
+            (d) specification side, judged directly on the real code (independent of the offsets of the table):
+                every recursive generate_expr call of a dispatched generator is entered above the depth of the
+                enclosing call unless it is one of the listed same-depth sites; the raised-counter recursion of
+                a leaf generator is cut above 2*max_depth; nesting (call tree and export) <= 2*max_depth + 8
+                (the bound the property file states for the current source); feasibility tests of one function
+                <= n0 + min(2^n - 1, max_combinations + 1); `itertools` walk = 2^n - 1 non-empty subsets.
+                Each of these yields a concrete replay (lang, seed, switches, max_depth) when it fails;
             (e) finding 13 (`TypeParameter.has_bound_of` needs a factory it does not have): the constructed
                 call, and `has_bound_of` against an independent reference on random generic hierarchies.
 """
@@ -229,6 +233,8 @@ def judge_result(run, r, acc, driver_requests, owners):
     run.cov["generate_expr_calls"] += pl["calls"]
     run.cov["generate_expr_calls_matched_to_skeleton"] += pl["validated"]
     run.cov["dispatch_choices_checked"] += pl["dispatch_checked"]
+    run.cov["calls_entered_above_entry_plus_offset"] = run.cov.get("calls_entered_above_entry_plus_offset", 0) + pl["leaks"]
+    run.cov["gen_bottom_calls"] = run.cov.get("gen_bottom_calls", 0) + pl["bottoms"]
     run.cov["traces_validated_against_impl"] += pl["validated"]
     for k, v in pl["site_hits"].items():
         d = run.cov.setdefault("site_hits", {})
@@ -392,6 +398,28 @@ def constructed_has_bound_of():
     return T, [("Z", Z, False), ("X", X, True), ("Y", Y, False)]
 
 
+def instantiate_witness():
+    import traceback
+    import src.ir.types as tp
+    import src.ir.type_utils as tu
+    import src.ir.kotlin_types as kt
+    from src import utils
+    pipeline.setup()
+    bt = kt.KotlinBuiltinFactory()
+    Y = tp.TypeParameter("Y")
+    D = tp.TypeConstructor("D", [tp.TypeParameter("A")])
+    C = tp.TypeConstructor("C", [tp.TypeParameter("B")])
+    X = tp.TypeParameter("X", bound=D.new([Y]))
+    T = tp.TypeParameter("T", bound=C.new([X]))
+    K = tp.TypeConstructor("K", [Y, X, T])
+    utils.random.r.seed(1)
+    try:
+        r = tu.instantiate_type_constructor(K, [D, C, K] + list(bt.get_non_nothing_types()))
+        return "instantiated" if r is not None else "none"
+    except Exception as e:      # noqa: BLE001 — the answer of the real code, as data
+        return {"error": type(e).__name__, "msg": str(e)[:200], "traceback": traceback.format_exc()[-1500:]}
+
+
 def call_hbo(tpar, other):
     try:
         return bool(tpar.has_bound_of(other))
@@ -422,6 +450,18 @@ def hbo_stream(run, quick):
                            "what": "T.has_bound_of(%s) = %s, reference %s" % (nm, got, want)},
                           signature="has_bound_of:constructed:wrong-answer")
     run.cov["has_bound_of_constructed"] = "raises (finding 13 present)" if raised else "answers as the reference"
+    # the same class through the generator's own utility: instantiating `class K<Y, X : D<Y>, T : C<X>>`
+    # (type_utils.instantiate_type_constructor -> _get_type_arg_variance -> has_bound_of)
+    got = instantiate_witness()
+    run.count({"has_bound_of": "instantiate_type_constructor", "answer": got if isinstance(got, str) else got["error"]})
+    run.cov["has_bound_of_instantiate"] = got if isinstance(got, str) else "raises " + got["error"]
+    if isinstance(got, dict):
+        sig = SIG_HBO if got["error"] == "AttributeError" and "get_any_type" in got["msg"] and "has_bound_of" in got["traceback"] \
+            else "instantiate_type_constructor:constructed:" + got["error"]
+        run.violation({"kind": "failing-input", "replay": "has_bound_of-constructed",
+                       "what": "type_utils.instantiate_type_constructor raises on the well-formed class "
+                               "K<Y, X : D<Y>, T : C<X>> (kotlin built-ins)",
+                       "exception": got["error"], "message": got["msg"], "traceback": got["traceback"]}, signature=sig)
     # random generic hierarchies: answers of the real code against the reference
     ntab = 60 if quick else 1500
     agree = err = 0
